@@ -108,8 +108,11 @@ func (op *pipelineOp) exec(fm *Frame) Exception {
 		var fops []formOwnedPort
 		inputIsPipe := i > 0
 		outputIsPipe := i < nforms-1
+		// The input port of this form. The form may replace its port 0 with a
+		// redirection, so keep the pipe's port to signal the writer later.
+		input := nextIn
 		if inputIsPipe {
-			newFm.ports[0] = nextIn
+			newFm.ports[0] = input
 			growAccess(&fops, 0).File = true
 		}
 		if outputIsPipe {
@@ -139,7 +142,6 @@ func (op *pipelineOp) exec(fm *Frame) Exception {
 				*pexc = exc
 			}
 			if inputIsPipe {
-				input := newFm.ports[0]
 				*input.sendError = errs.ReaderGone{}
 				close(input.sendStop)
 				input.readerGone.Store(true)
